@@ -95,7 +95,8 @@
 EXTENDS Integers, FiniteSets, Sequences, TLC
 
 CONSTANTS Nodes, RNames, PNames,
-          MaxGen,     \* incarnations per reservation / pod name
+          MaxGen,     \* incarnations per reservation name
+          MaxPGen,    \* incarnations per pod name
           Repairs     \* {} = controller as found; "pending-expiry" = with the proposed repair (section 3)
 
 Dims == {"cpu", "mem"}
@@ -254,7 +255,7 @@ ApiSchedule(r, n) == /\ rs[r].exists /\ rs[r].phase = "Pending" /\ rs[r].node = 
 ApiDeleteR(r) == /\ rs[r].exists
                  /\ rs' = [rs EXCEPT ![r] = NoR]
                  /\ UNCHANGED <<now, nodes, pods, envvars>>
-ApiAddPod(p, n, k) == /\ ~pods[p].exists /\ pgen[p] < MaxGen
+ApiAddPod(p, n, k) == /\ ~pods[p].exists /\ pgen[p] < MaxPGen
                       /\ n \in nodes \cup {""} /\ k \in RaChoice(n)
                       /\ pods' = [pods EXCEPT ![p] = NewP(pgen[p] + 1, n, k)]
                       /\ pgen' = [pgen EXCEPT ![p] = @ + 1]
